@@ -137,7 +137,15 @@ def main():
                    source_commits=[], add_only=True),
         engines=[
             dict(name='E-ENUM', path='vf/core.py', serves_properties=sorted(CHECKS),
-                 kind_free_text='bounded exhaustive enumeration runner: spawn pools (per environment), crash isolation, reproduce-before-report, replay files, evidence'),
+                 kind_free_text='bounded exhaustive enumeration runner: spawn pools per environment, crash isolation, reproduce-before-report, replay files, evidence'),
+            dict(name='E-TWIN/E-POR', path='vf/twin.py', serves_properties=['C07', 'C08', 'C10', 'C11', 'C17'],
+                 kind_free_text='interpreted twins of numba kernels (own source, prange lowered to closures, shadow arrays with per-element identity) + dynamic partial-order reduction: pairwise Bernstein independence of parallel-region bodies on the access log'),
+            dict(name='E-SCHED', path='vf/twin.py', serves_properties=['C07', 'C18'],
+                 kind_free_text='stateless CHESS-style schedule exploration with preemption bounding over baton-passing threads (array-access points for kernel twins, source-line points for pure-Python callables); self-checked against a DP schedule count and seeded races'),
+            dict(name='E-BFS', path='vf/checks/c14.py', serves_properties=['C14', 'C15'],
+                 kind_free_text='explicit-state search over the real parser: state read from frame locals / last header, transitions = next chunk / next record, every transition a real execution'),
+            dict(name='catalog generator + asdf double', path='vf/catgen.py', serves_properties=['C01', 'C02', 'C03', 'C05', 'C18'],
+                 kind_free_text='synthetic CompaSO catalogs whose particle records carry their identity; in-memory asdf.open double validated against real ASDF files'),
         ],
         checks=checks,
         notes='All verdicts come from complete enumeration of stated finite spaces on the real code; see DESIGN.md.',
